@@ -6,10 +6,14 @@ REPO=${VERIF_REPO:-/repo}
 OUT=$V/build/vs
 mkdir -p "$OUT"
 N=$1; shift
-if [ ! -f "$OUT/vsched.o" ] || [ "$V/vsched/vsched.cpp" -nt "$OUT/vsched.o" ] || [ "$V/vsched/vsched.h" -nt "$OUT/vsched.o" ]; then
-  g++ -std=c++17 -O2 -g0 -c "$V/vsched/vsched.cpp" -o "$OUT/vsched.o.$$" && mv "$OUT/vsched.o.$$" "$OUT/vsched.o"
+# the runtime object is keyed by the content of its sources (never trust timestamps of a restored build directory)
+H=$(cat "$V/vsched/vsched.cpp" "$V/vsched/vsched.h" | sha1sum | cut -c1-12)
+RT="$OUT/vsched-$H.o"
+if [ ! -f "$RT" ]; then
+  rm -f "$OUT"/vsched-*.o
+  g++ -std=c++17 -O2 -g0 -c "$V/vsched/vsched.cpp" -o "$RT.$$" && mv "$RT.$$" "$RT"
 fi
 g++ -std=c++17 -O1 -g0 -w -fsanitize=thread --param tsan-distinguish-volatile=1 -D_OPENMP=201511 -fno-access-control \
-    -I"$REPO/src/include" -I"$V/vsched" "$@" -c "$V/vsched/harness/$N.cpp" -o "$OUT/$N.o"
-g++ "$OUT/$N.o" "$OUT/vsched.o" -o "$OUT/$N" -lpthread
+    -I"$REPO/src/include" -I"$V/vsched" -I"$V/vsched/harness" "$@" -c "$V/vsched/harness/$N.cpp" -o "$OUT/$N.o"
+g++ "$OUT/$N.o" "$RT" -o "$OUT/$N" -lpthread
 echo "$OUT/$N"
